@@ -138,6 +138,28 @@ func genC18BE(r *rand.Rand, run int, _ string) *Scenario {
 	}
 
 	nc := 2 + r.IntN(4)
+
+	if chance(r, 0.5) {
+		// contended deletes: the keys are pre-loaded, several clients delete the same ones
+		for k := range be.Keys {
+			be.Root = append(be.Root, BEOp{Kind: "write", Key: k})
+		}
+
+		for c := 0; c < nc; c++ {
+			var ops []BEOp
+
+			for i := 0; i < 1+r.IntN(3); i++ {
+				ops = append(ops, BEOp{Kind: pick(r, "delete", "delete", "delete", "write", "read"), Key: r.IntN(len(be.Keys))})
+			}
+
+			be.Clients = append(be.Clients, ops)
+		}
+
+		sc.Sched = genSched(r, 30+nc*20)
+
+		return sc
+	}
+
 	for c := 0; c < nc; c++ {
 		var ops []BEOp
 
@@ -173,6 +195,13 @@ func (r *beRun) oracleC18BE() {
 	seq := len(r.sc.Clients) == 1
 	reads, writes, deletes, expiredAll := 0, 0, 0, 0
 
+	for _, op := range r.sc.Root { // pre-loaded by the root before the clients started
+		if op.Kind == "write" {
+			writes++
+			m[string(r.sc.Keys[op.Key])] = true
+		}
+	}
+
 	for _, rec := range r.recs {
 		if !rec.done {
 			continue
@@ -206,6 +235,36 @@ func (r *beRun) oracleC18BE() {
 			m = map[string]bool{}
 			out.probe("deleteAll_counted")
 		}
+	}
+
+	if !seq {
+		// concurrent runs: a successful Delete removes an entry some Write created, so per key
+		// there cannot be more successful Deletes than Writes
+		w, d := map[string]int{}, map[string]int{}
+
+		for _, op := range r.sc.Root {
+			if op.Kind == "write" {
+				w[string(r.sc.Keys[op.Key])]++
+			}
+		}
+
+		for _, rec := range r.recs {
+			switch {
+			case !rec.done:
+			case (rec.kind == "write" || rec.kind == "store") && rec.err == nil:
+				w[rec.key]++
+			case rec.kind == "delete" && rec.err == nil:
+				d[rec.key]++
+			}
+		}
+
+		for k, n := range d {
+			if n > w[k] {
+				out.violate("C18.delete", r.sc.Backend+" entry-counted-deleted-twice", "key %q: %d Delete calls reported success (cache_delete counted each) but only %d entries were ever written under it", k, n, w[k])
+			}
+		}
+
+		out.probe("concurrent_metrics_checked")
 	}
 
 	check := func(rule, metric string, want int) {
